@@ -2,9 +2,9 @@
 from __future__ import annotations
 from engine.registry import Registry
 from engine import sortmodel, polymodel
-from contracts import option, sorting, align, compare, order_lemmas, leading, dispatch, construct, dispatchfn, baseclass, derivative, division, statics, call, codec, shapefn, display, polynomial, numeric
+from contracts import option, sorting, align, compare, order_lemmas, leading, dispatch, construct, dispatchfn, baseclass, derivative, division, statics, call, codec, shapefn, display, polynomial, numeric, multiply
 
-_CONTRACT_MODULES = [option, sorting, align, compare, leading, dispatch, construct, dispatchfn, baseclass, derivative, division, call, codec, shapefn, polynomial, numeric]
+_CONTRACT_MODULES = [option, sorting, align, compare, leading, dispatch, construct, dispatchfn, baseclass, derivative, division, call, codec, shapefn, polynomial, numeric, multiply]
 
 ALL_CONTRACTS = {}
 for _m in _CONTRACT_MODULES:
@@ -18,8 +18,9 @@ def build_registry():
     polymodel.install(reg)      # (numpy.array: polymodel's axiom covers index vectors too)
     polymodel.install_clean(reg)
     polymodel.install_align(reg)
-    from engine import codecmodel
+    from engine import codecmodel, mulmodel
     codecmodel.install(reg)
+    mulmodel.install(reg)
     codec.install_axioms(reg)
     shapefn.install_axioms(reg)
     numeric.install_axioms(reg)
@@ -91,18 +92,27 @@ PROPS = {
                     "whole-repository frame scan; every obligation is discharged by z3 with dicts as arrays.",
     ),
     "C01": dict(level="other",
-                contracts=["numpoly.simple_dispatch", "numpoly.add", "numpoly.subtract", "numpoly.negative", "numpoly.positive"],
+                contracts=["numpoly.simple_dispatch", "numpoly.add", "numpoly.subtract", "numpoly.negative", "numpoly.positive",
+                           "numpoly.multiply", "numpoly.square", "numpoly.power", "numpoly.align_indeterminants"],
                 explanation="simple_dispatch is proved for an arbitrary column function F (arity 1-2): the filled polynomial has "
                 "the rows/names of the aligned operands, EVERY coefficient column is F of the operands' columns of the same term "
                 "(loop invariant; definedness), shape/dtype are numpy's, result is the cleaning of it (fresh, well-formed). "
                 "add/subtract/negative/positive apply the numpy namesake to the operands in order with where forwarded; their value "
-                "clause (ring operation of the abstract values, broadcast) follows by bridge B5. multiply/power/square and mixed "
-                "operand kinds: bounded run-time checks against the exact sparse-polynomial oracle (conc/checks_c01.py).",
-                trusted_base=COMMON_TRUSTED + ["contracts of align_polynomials (C04), clean_attributes/from_attributes (C03), "
-                                               "assumed ndpoly.__new__ / accessor model"],
-                assumptions=["B5 (column-wise application of a linear zero-preserving function denotes the function of the values)",
-                             "out=None; kwargs other than where=True pass through to numpy unverified"],
-                not_decided=["multiply (compiled kernel + fallback loop), power, square: bounded only"]),
+                "clause (ring operation of the abstract values, broadcast) follows by bridge B5. multiply is proved from its source on "
+                "BOTH paths at coefficient level: rows = exactly the distinct sums of an exponent row of each operand, every coefficient "
+                "= the convolution sum over the pairs adding up to its row (nested loop invariants over symbolic term counts with the "
+                "set of keys seen so far; uint32 key arithmetic with wrap-around), every field written, compiled path only under the "
+                "established preconditions of the assumed cmultiply contract; value = product by bridge B9. square = multiply(x, x). "
+                "power with a non-negative integer scalar exponent: invariant out = x**k over the multiply contract, start = constant "
+                "one (B10). Mixed operand kinds, array-valued exponents, compositions and ring laws on concrete operands: bounded "
+                "run-time checks against the exact sparse-polynomial oracle (conc/checks_c01.py).",
+                trusted_base=COMMON_TRUSTED + ["contracts of align_* (C04), clean_attributes/from_attributes/ndpoly (C03)",
+                                               "assumed contract of the compiled cmultiply (Cython; same specification as the verified fallback loop)",
+                                               "numpy axioms: tile/repeat/unique pairing, uint32 arithmetic, unicode views"],
+                assumptions=["B5, B9, B10 (coefficient-level definitions of sum, product and constant)", "A1",
+                             "out=None; kwargs other than where=True pass through to numpy unverified",
+                             "precondition of multiply: every exponent sum is storable (otherwise the constructor raises, C20)"],
+                not_decided=["array-valued exponents of power, mixed operand kinds (bounded)", "the compiled kernel itself (assumed)"]),
     "C15": dict(level="other", contracts=["numpoly.postprocess_attributes", "numpoly.polynomial_from_attributes", "numpoly.clean_attributes"],
                 explanation="Every verification condition of the construct/align/compare/leading contracts is generated with the "
                 "option dictionary symbolic (get_options() is a contract returning an arbitrary map satisfying the module invariant); "
@@ -110,7 +120,7 @@ PROPS = {
                 "parameter. Here the construct contracts are re-posed (results well-formed, values kept, no failure under any "
                 "setting); the operation catalogue under random option settings is a bounded run-time check with the default-options "
                 "run as oracle.", trusted_base=COMMON_TRUSTED),
-    "C17": dict(level="other", statics=[statics.module_state_obligations], contracts=["numpoly.align_shape", "numpoly.align_exponents", "numpoly.greater", "numpoly.equal",
+    "C17": dict(level="other", statics=[statics.module_state_obligations], contracts=["numpoly.multiply", "numpoly.derivative", "numpoly.poly_divmod", "numpoly.align_shape", "numpoly.align_exponents", "numpoly.greater", "numpoly.equal",
                                           "numpoly.not_equal", "numpoly.lead_coefficient", "numpoly.lead_exponent"],
                 explanation="Frame obligations: at every write statement of a function under contract the executor poses "
                 "'target region is fresh or a declared output', with regions tracked through views (.values columns, ravel). "
@@ -236,7 +246,8 @@ PROPS = {
                 assumptions=["A1; floor division uninterpreted", "out=None, where=True for true_divide/floor_divide"],
                 not_decided=["numeric values of the mirrored catalogue on constants (bounded)"]),
     "C12": dict(level="other", contracts=["numpoly.polynomial_from_attributes", "numpoly.clean_attributes", "numpoly.ndpoly.astype",
-                                          "numpoly.polynomial", "numpoly.aspolynomial"],
+                                          "numpoly.polynomial", "numpoly.aspolynomial", "numpoly.multiply", "numpoly.true_divide",
+                                          "numpoly.floor_divide"],
                 explanation="Definedness ghost state: polynomial_from_attributes (through which every constructor and operation "
                 "returns) is proved to write every coefficient on every path (compiled setter only under its precondition, numpy "
                 "fallback, empty case) and to carry the requested dtype; clean_attributes requires defined input. The dtype "
@@ -248,7 +259,8 @@ PROPS = {
                 "for the zero polynomial), isconstant, tonumpy (raises exactly for non-constants) are proved; todict, decompose, "
                 "set_dimensions, sortable_proxy, argmax/argmin/amax/amin: bounded run-time checks (conc/checks_c19.py).",
                 trusted_base=COMMON_TRUSTED + ["glexsort contract (proved, C18)", "ndpoly accessor model"]),
-    "C20": dict(level="other", contracts=["numpoly.ndpoly", "numpoly.ndpoly.exponents", "numpoly.derivative"],
+    "C20": dict(level="other", contracts=["numpoly.ndpoly", "numpoly.ndpoly.exponents", "numpoly.derivative", "numpoly.multiply",
+                                          "numpoly.power"],
                 explanation="The storage-key codec is proved from the real source of baseclass.py, with KEY_OFFSET read from the class "
                 "body on every run: ndpoly.__new__ stores row t under the field name whose code points are exactly E(t,d)+KEY_OFFSET "
                 "(no wrap-around, no NUL, valid unicode), different rows get different field names, and for ARBITRARY integer exponents "
@@ -256,13 +268,17 @@ PROPS = {
                 "repeated row) - a different monomial is never stored; the `exponents` property decodes exactly the stored rows "
                 "(decode(encode(row)) == row, no truncation). All contracts above it are phrased on exponent VALUES with no bound "
                 "below the storable range, so construction, alignment, differentiation (derivative: storability of the lowered "
-                "exponents is an obligation) and pickling carry any storable exponent. Multiplication/powers (compiled kernel + "
-                "fallback), evaluation at large exponents and text I/O: exhaustive / bounded run-time checks (conc/checks_c20.py).",
+                "exponents is an obligation) and pickling carry any storable exponent. multiply: the result rows are exactly the exponent "
+                "SUMS (computed in int64, range-tested by the constructor), the key the fallback loop computes in uint32 arithmetic is "
+                "proved to be the name of the field holding the sum row, and the compiled kernel is used only when every code point "
+                "fits one byte - so (c*q0**a)*(d*q0**b) has the single exponent a+b with coefficient c*d for ALL storable a, b; powers "
+                "by the loop invariant over multiply. Evaluation at large exponents, the compiled kernel itself and text I/O: "
+                "exhaustive / bounded run-time checks (conc/checks_c20.py).",
                 trusted_base=COMMON_TRUSTED + ["numpy axioms of engine/codecmodel.py: uint32 wrap-around, 'U<w>' <-> uint32 views, "
                                                "astype padding, numpy.dtype field-name rules, code points above 0x10FFFF raise (observed on numpy 2.5.3)",
                                                "assumed contract of numpoly.symbols (default names)"],
                 assumptions=["A3 numpy axioms (conformance: the exhaustive single-exponent sweep of the bounded part)"],
-                not_decided=["multiply / power exponent sums (bounded, exhaustive to 600)", "savetxt/loadtxt of keys (bounded)"]),
+                not_decided=["compiled cmultiply kernel (assumed; exhaustive products to exponent sum 600 at run time)", "savetxt/loadtxt of keys (bounded)"]),
     "C13": dict(level="other", contracts=["numpoly.ndpoly.__reduce__", "numpoly.ndpoly.__array_finalize__",
                                           "numpoly.polynomial_from_attributes"],
                 explanation="__reduce__ (real source) is proved to return polynomial_from_attributes together with the polynomial's "
